@@ -1684,6 +1684,22 @@ def merge_fn(toks, opts, sections, fired):
                 c1 = match_close(toks, c1)
             c1 += 1
         lines = text.strip("\n").split("\n")
+        spec = " ".join(l.strip() for l in lines[1:])
+        nxt = next_code(toks, c1 + 1)
+        if lines[0].strip() == "=" and toks[nxt].text == "->":
+            # the closure is already typed:  |s: &[T]| -> bool { .. }   ->   |s: &[T]| -> (b: bool) ensures .. { .. }
+            mm = re.match(r"\((\w+):[^)]*\)\s*(.*)", spec)
+            if not mm:
+                raise ExtractError(f"closure {k}: annotation must look like `(b: T) ensures ..`")
+            rs = next_code(toks, nxt + 1)
+            bo_ = rs
+            while not (toks[bo_].kind == "punct" and toks[bo_].text == "{"):
+                if toks[bo_].kind == "punct" and toks[bo_].text in ("(", "["):
+                    bo_ = match_close(toks, bo_)
+                bo_ += 1
+            add(rs, bracket("(" + mm.group(1) + ": "))
+            add(prev_code(toks, bo_ - 1) + 1, bracket(") " + mm.group(2) + " "))
+            continue
         types = [x.strip() for x in lines[0].split(",")]
         params = split_top_commas(toks, c0 + 1, c1)
         if len(params) != len(types):
